@@ -20,6 +20,7 @@ import (
 	"errors"
 	"runtime"
 
+	"github.com/panjf2000/gnet/v2/internal/vhook"
 	errorx "github.com/panjf2000/gnet/v2/pkg/errors"
 	"github.com/panjf2000/gnet/v2/pkg/netpoll"
 )
@@ -31,6 +32,7 @@ func (el *eventloop) rotate() error {
 	}
 
 	err := el.poller.Polling(el.accept0)
+	vhook.Gate("loop.polling-returned", el, el.idx)
 	if errors.Is(err, errorx.ErrEngineShutdown) {
 		el.getLogger().Debugf("main reactor is exiting in terms of the demand from user, %v", err)
 		err = nil
@@ -63,6 +65,7 @@ func (el *eventloop) orbit() error {
 		}
 		return c.processIO(fd, ev, flags)
 	})
+	vhook.Gate("loop.polling-returned", el, el.idx)
 	if errors.Is(err, errorx.ErrEngineShutdown) {
 		el.getLogger().Debugf("event-loop(%d) is exiting in terms of the demand from user, %v", el.idx, err)
 		err = nil
@@ -71,6 +74,7 @@ func (el *eventloop) orbit() error {
 	}
 
 	el.closeConns()
+	vhook.Ev("loop.closed", el, el.idx, 0)
 	el.engine.shutdown(err)
 
 	return err
@@ -99,6 +103,7 @@ func (el *eventloop) run() error {
 		}
 		return c.processIO(fd, ev, flags)
 	})
+	vhook.Gate("loop.polling-returned", el, el.idx)
 	if errors.Is(err, errorx.ErrEngineShutdown) {
 		el.getLogger().Debugf("event-loop(%d) is exiting in terms of the demand from user, %v", el.idx, err)
 		err = nil
@@ -107,6 +112,7 @@ func (el *eventloop) run() error {
 	}
 
 	el.closeConns()
+	vhook.Ev("loop.closed", el, el.idx, 0)
 	el.engine.shutdown(err)
 
 	return err
